@@ -43,6 +43,24 @@ def gen_variants():
                         k += 1
             if "log" in KINDS:
                 out.append((m.relpath, "log", fi, 0))
+            if "swapeq" in KINDS:
+                k = 0
+                for n in ast.walk(fn):
+                    if isinstance(n, ast.Compare) and len(n.ops) == 1 and isinstance(n.ops[0], (ast.Eq, ast.NotEq)):
+                        out.append((m.relpath, "swapeq", fi, k))
+                        k += 1
+            if "range0" in KINDS:
+                k = 0
+                for n in ast.walk(fn):
+                    if isinstance(n, ast.Call) and isinstance(n.func, ast.Name) and n.func.id == "range" and len(n.args) == 2 and isinstance(n.args[0], ast.Constant) and n.args[0].value == 0:
+                        out.append((m.relpath, "range0", fi, k))
+                        k += 1
+            if "temp" in KINDS:
+                k = 0
+                for n in ast.walk(fn):
+                    if isinstance(n, ast.Assign) and isinstance(n.value, ast.Call) and n.value.args and not isinstance(n.value.args[0], (ast.Constant, ast.Name, ast.Starred)):
+                        out.append((m.relpath, "temp", fi, k))
+                        k += 1
             if "augassign" in KINDS:
                 k = 0
                 for n in ast.walk(fn):
@@ -78,6 +96,37 @@ def apply(v):
         fn.body.insert(idx, ast.parse("logging.debug('enter')").body[0])
         if "import logging" not in src:
             mod.body.insert(0, ast.parse("import logging").body[0])
+    elif kind == "swapeq":
+        k = 0
+        for n in ast.walk(fn):
+            if isinstance(n, ast.Compare) and len(n.ops) == 1 and isinstance(n.ops[0], (ast.Eq, ast.NotEq)):
+                if k == arg:
+                    n.left, n.comparators[0] = n.comparators[0], n.left
+                    break
+                k += 1
+    elif kind == "range0":
+        k = 0
+        for n in ast.walk(fn):
+            if isinstance(n, ast.Call) and isinstance(n.func, ast.Name) and n.func.id == "range" and len(n.args) == 2 and isinstance(n.args[0], ast.Constant) and n.args[0].value == 0:
+                if k == arg:
+                    n.args = n.args[1:]
+                    break
+                k += 1
+    elif kind == "temp":
+        k = 0
+        for n in ast.walk(fn):
+            if isinstance(n, ast.Assign) and isinstance(n.value, ast.Call) and n.value.args and not isinstance(n.value.args[0], (ast.Constant, ast.Name, ast.Starred)):
+                if k == arg:
+                    tmp = ast.Assign(targets=[ast.Name("tmp_arg", ast.Store())], value=n.value.args[0])
+                    n.value.args[0] = ast.Name("tmp_arg", ast.Load())
+                    for p in ast.walk(fn):
+                        for fld in ("body", "orelse", "finalbody"):
+                            lst = getattr(p, fld, None)
+                            if isinstance(lst, list) and n in lst:
+                                lst.insert(lst.index(n), tmp)
+                                break
+                    break
+                k += 1
     elif kind == "augassign":
         k = 0
         for n in ast.walk(fn):
